@@ -491,7 +491,17 @@ func checkFoldShape(c *core.Ctx, r *core.Rule) {
 			compl = true
 		}
 	}
+	remFFFF := false
+	core.Instrs(fn, func(ins ssa.Instruction) {
+		if bo, ok := ins.(*ssa.BinOp); ok && bo.Op == token.REM {
+			if k, ok := core.ConstInt(bo.Y); ok && k == 0xffff {
+				remFFFF = true
+			}
+		}
+	})
 	switch {
+	case steps == 0 && remFFFF:
+		r.Violate(key, p.Pos(fn.Pos()), "the sum is reduced with % 0xffff: that equals end-around-carry folding except for non-zero multiples of 0xffff, which it maps to 0 where folding gives 0xffff — for such sums the checksum comes out as 0xffff instead of 0x0000, and verifiers reject correct packets", nil)
 	case steps == 0:
 		r.Undecided(key, p.Pos(fn.Pos()), "no (x>>16)+(x&0xffff) step recognised")
 	case !compl:
